@@ -207,10 +207,12 @@ def SNode.weight : SNode → Nat
   | .bdd .. => 2
   | .or es => es.length
 
-def SStore.weightAt (s : SStore) (j : Nat) : Nat :=
-  if j < s.length then (s[s.length - 1 - j]?.map SNode.weight).getD 0 else 0
+/-- the weight of the node with index `j` -/
+def weightAt : SStore → Nat → Nat
+  | [], _ => 0
+  | n :: rest, j => if j = rest.length then n.weight else weightAt rest j
 
 def countSpecS (s : SStore) (r : SRef) : Nat :=
-  ((List.range s.length).map fun j => if reachesS s r j then s.weightAt j else 0).sum
+  ((List.range s.length).map fun j => if reachesS s r j then weightAt s j else 0).sum
 
 end ScratchSdd
